@@ -60,6 +60,11 @@ def column {β} (n : Nat) (tf : List (List β)) : List β := tf.filterMap (fun r
 def columns {β} (N : Nat) (tf : List (List β)) : List (List β) :=
   (List.range N).map (fun n => column n tf)
 
+/-- A padded batch member read entry by entry in the layout the loader REPORTS (`loader.batch_first`
+at the time of the call): `[n][t]` as it is, `[t][n]` through its columns. -/
+def readRows {β} (batchFirst : Bool) (N : Nat) (m : List (List β)) : List (List β) :=
+  if batchFirst then m else columns N m
+
 /-- `s` lists its elements by non-increasing `key` and keeps, within every class of equal `key`,
 the order those elements have in `l`: the specification of a STABLE descending sort of `l`. -/
 def IsStableDescSort {α} (key : α → Nat) (l s : List α) : Prop :=
